@@ -139,6 +139,16 @@ def run_crate_finder(unit_name, scratch, only=None, spec=None):
     built = "Running unittests" in r.stderr or "running " in r.stdout
     panics = re.findall(r"^test (\S+) \.\.\. FAILED", r.stdout, re.M)
     shutil.rmtree(dst, ignore_errors=True)
+    # every `vf_` test must have reported a summary: a test that aborted the process (stack overflow, abort) leaves none, and the tests
+    # after it never ran - that is a harness failure, never "nothing found"
+    try:
+        with open(tpath, encoding="utf-8") as fh:
+            declared = re.findall(r"\bfn\s+(vf_\w+)\s*\(\s*\)", fh.read())
+    except OSError:
+        declared = []
+    if built and not only and len(sums) < len(declared):
+        done = set(t for t, *_ in sums)
+        panics = panics + ["%s (no summary: the test did not finish - aborted?)" % d for d in declared if d[3:] not in done and not any(d in x for x in panics)]
     return {"cmd": " ".join(cmd), "built": built, "build_error": None if built else r.stderr[-600:],
             "summaries": [{"test": t, "checked": int(c), "nontrivial": int(n), "bad": int(b)} for t, c, n, b in sums],
             "failures": [{"case": c, "why": w} for c, w in fails], "panicked_tests": panics}
